@@ -1,5 +1,6 @@
 import Bxh.Proofs.LedgerFrame
 import Bxh.Proofs.LedgerFlush
+import Bxh.Gen.FailedEvents
 /-!
 # C07 — "Read-only (view) execution never changes ledger state or chain metadata at all"
 
@@ -49,5 +50,11 @@ example :
     l.accounts = [] ∧ (getState (applyWrites [.storage 1 "k" (some "w"), .balance 1 0, .nonce 2 9] l) 1 "k").2 = some "w" ∧
       (getState (clear (applyWrites [.storage 1 "k" (some "w"), .balance 1 0, .nonce 2 9] l)) 1 "k").2 = some "v" := by
   refine ⟨rfl, ?_, ?_⟩ <;> decide
+
+/-- **what a FAILED transaction posted is void, whatever made it fail**: the condition under which `applyTx` drops the events of a
+transaction — extracted from the source on every run — is the bare test of the receipt status, with no exception for particular
+errors; it is the condition the model's `applyTx` uses (`C07_failed_tx_not_listed`: a FAILED receipt carries no event, is never
+listed for delivery, does not reach the service cache, the node feed or the audit feed) -/
+theorem C07_events_void_iff_failed : Bxh.Gen.failedEventsCond = "receipt.Status == pb.Receipt_FAILED" := by decide
 
 end Bxh.Props.C07
